@@ -263,6 +263,10 @@ def b_sorted(interp, x, **kw):
     return sorted(xs, **kw)
 
 
+def b_reversed(interp, x):
+    return list(reversed(interp.concrete_iter(x)))
+
+
 def b_enumerate(interp, x):
     return list(enumerate(interp.concrete_iter(x)))
 
@@ -322,6 +326,7 @@ def b_type(interp, x):
 
 
 BUILTINS = dict(
+    reversed=b_reversed,
     len=b_len,
     range=b_range,
     int=b_int,
